@@ -219,6 +219,26 @@ static void gen_search(vh_rng_t *rng)
   for (i = 0; i < app_cfg.ndomains; i++) {
     snprintf(app_cfg.domains[i], sizeof(app_cfg.domains[i]), "%s", doms[vh_below(rng, 5)]);
   }
+  /* in a third of the cases the search parameters reach the channel through the system configuration
+   * (resolv.conf directives, RES_OPTIONS, LOCALDOMAIN) instead of the options structure */
+  if (vh_chance(rng, 1, 3)) {
+    int plain = 1, j;
+    app_cfg.ndots_via = vh_range(rng, 0, 2);
+    for (i = 0; i < app_cfg.ndomains; i++) {
+      if (!strcmp(app_cfg.domains[i], ".")) {
+        plain = 0;
+      }
+      for (j = 0; j < i; j++) {
+        if (!strcasecmp(app_cfg.domains[i], app_cfg.domains[j])) {
+          plain = 0;
+        }
+      }
+    }
+    if (plain && app_cfg.ndomains > 0) {
+      /* LOCALDOMAIN carries a single domain in c-ares (by design, asserted by nothing else): only then */
+      app_cfg.domains_via = vh_range(rng, 0, app_cfg.ndomains == 1 ? 2 : 1);
+    }
+  }
   if (vh_chance(rng, 1, 6)) {
     app_cfg.flags |= ARES_FLAG_NOSEARCH;
   }
@@ -231,7 +251,7 @@ static void gen_search(vh_rng_t *rng)
   snprintf(app_cfg.lookups, sizeof(app_cfg.lookups), "%s", vh_chance(rng, 1, 5) ? "fb" : "b");
   mon_enable_idx = mon_enable_fd = mon_enable_timer = 0;
   /* name shape */
-  shape = (int)vh_below(rng, 12);
+  shape = (int)vh_below(rng, 14);
   switch (shape) {
     case 0:
     case 1:
@@ -288,6 +308,13 @@ static void gen_search(vh_rng_t *rng)
         snprintf(name + o, sizeof(name) - o, "%s", vh_chance(rng, 1, 2) ? ".h7" : "");
         break;
       }
+    case 12:
+      /* an escaped dot is a dot of the name as given (resolv.conf(5) counts characters), but no label boundary */
+      snprintf(name, sizeof(name), "host%d\\.dept", uniq);
+      break;
+    case 13:
+      snprintf(name, sizeof(name), vh_chance(rng, 1, 2) ? "host%d\\.a.b" : "host%d.a\\.b\\.c", uniq);
+      break;
     default:
       snprintf(name, sizeof(name), "%s", vh_chance(rng, 1, 3) ? "localhost" : vh_chance(rng, 1, 2) ? "192.0.2.9" : "host7.onion");
       break;
